@@ -332,7 +332,9 @@ sim::RunResult run(const Json& sc) {
             // The statement speaks of vectors *partially delivered* yet reported complete, not of torn digits that
             // the text format cannot detect without a terminator check: counted, not raised (see DESIGN.md, C14).
             bump(st, std::string("probe.torn_last_value_accepted.") + (res.rc == 0 ? "rc-ok" : "rc-error"));
-            if (false) v.set("TRUNCATED_VALUE_ACCEPTED", std::string(1, a.what) + (res.rc == 0 ? "/rc-ok" : "/rc-error"),
+            // In a binary file a value is 8 bytes (an index 4): a short read is unambiguous, so there a torn
+            // value delivered with reader status OK *is* a partially delivered vector reported as complete.
+            if (bin) v.set("TRUNCATED_VALUE_ACCEPTED", std::string(1, a.what) + (res.rc == 0 ? "/rc-ok" : "/rc-error"),
                   "file cut at byte " + std::to_string(bytes.size()) + " of " + std::to_string(full.size()) + ": element " + std::to_string(i) + " of vector '" +
                   std::string(1, a.what) + "' (all " + std::to_string(a.offered) + " values delivered, reader status OK) is " + dbl_canon(a.vals[i], false) +
                   " but the complete file holds " + dbl_canon(b.vals[i], false) + " (ReadSOLFile rc=" + std::to_string(res.rc) + ")");
